@@ -217,7 +217,7 @@ theorem filter_map_set_new {α β} (p : α → Bool) (f : α → β) (ts : List 
     | zero =>
       simp only [List.getElem?_cons_zero, Option.some.injEq] at hi
       subst hi
-      simp [List.filter_cons, hp, hp']
+      simp [hp, hp']
     | succ i =>
       simp only [List.getElem?_cons_succ] at hi
       simp only [List.set_cons_succ, List.filter_cons]
@@ -272,7 +272,7 @@ theorem getElem?_set_eq' {α} (ts : List α) (i j : Nat) (t' t : α) (hi : ts[i]
     · rw [List.getElem?_eq_none h] at hi; cases hi
   rw [List.getElem?_set]
   split
-  · simp [hlt]
+  · simp
   · rfl
 
 theorem stepThread_inv (a : Algo) (md0 : Option Meta) (fs : List (Peer × Nat)) (st : SState)
@@ -792,7 +792,7 @@ theorem length_filter_partition {α} (q : α → Bool) (l : List α) :
     (l.filter q).length + (l.filter (fun x => !q x)).length = l.length := by
   induction l with
   | nil => rfl
-  | cons x xs ih => cases hq : q x <;> simp [List.filter_cons, hq] <;> omega
+  | cons x xs ih => cases hq : q x <;> simp [hq] <;> omega
 
 theorem sum_snd_eq_length (l : List (Peer × Nat)) (h : ∀ k ∈ l, k.2 = 1) :
     (l.map (·.2)).sum = l.length := by
@@ -810,7 +810,7 @@ theorem mkReports_spray_fst (sends : List Send) :
   simp only [mkReports]
   induction sends.filter (fun x => !x.ok) with
   | nil => rfl
-  | cons x xs ih => simp [List.filterMap_cons, ih]
+  | cons x xs ih => simp
 
 theorem mkReports_spray_length (sends : List Send) :
     (mkReports .spray sends).length = (sends.filter (fun x => !x.ok)).length := by
